@@ -75,6 +75,14 @@ def classifiers(classes, cost, seed):
         ("SlidingWindowClassifier", SlidingWindowClassifier(ParzenWindowClassifier(**kw), **kw), False),
         ("AnnotatorEnsembleClassifier", AnnotatorEnsembleClassifier(estimators=[(f"c{i}", ParzenWindowClassifier(random_state=seed)) for i in range(2)], **kw), True),
         ("AnnotatorLogisticRegression", AnnotatorLogisticRegression(n_annotators=2, **kw), True),
+        # non-default parameters
+        ("ParzenWindowClassifier[n_neighbors=2]", ParzenWindowClassifier(n_neighbors=2, **kw), False),
+        ("ParzenWindowClassifier[laplacian]", ParzenWindowClassifier(metric="laplacian", metric_dict={"gamma": 0.5}, **kw), False),
+        ("ParzenWindowClassifier[class_prior=vector]", ParzenWindowClassifier(class_prior=[0.5 + i for i in range(len(classes))], **kw), False),
+        ("MixtureModelClassifier[similarities]", MixtureModelClassifier(mixture_model=BayesianGaussianMixture(n_components=2, random_state=seed), weight_mode="similarities", class_prior=0.5, **kw), False),
+        ("SlidingWindowClassifier[window=4,only_labeled]", SlidingWindowClassifier(ParzenWindowClassifier(**kw), window_size=4, only_labeled=True, **kw), False),
+        ("AnnotatorEnsembleClassifier[soft]", AnnotatorEnsembleClassifier(estimators=[(f"c{i}", ParzenWindowClassifier(random_state=seed)) for i in range(2)], voting="soft", **kw), True),
+        ("AnnotatorLogisticRegression[no_intercept,priors]", AnnotatorLogisticRegression(n_annotators=2, fit_intercept=False, annot_prior_full=2, annot_prior_diag=1, weights_prior=0.5, max_iter=20, **kw), True),
     ]
     return out
 
@@ -193,7 +201,13 @@ def oracle(clf, P, pred, classes, cost, scen, name, Xq):
                 return "freq_negative", f"predict_freq {F.tolist()}"
         except Exception:
             pass
-    if scen == "no_labels" and "Ensemble" not in name and not np.allclose(P, 1.0 / K, atol=1e-12):
+    expected = 1.0 / K
+    if "class_prior=vector" in name:
+        # a user-supplied NON-uniform prior is label information of its own: without labels the classifier predicts the normalised
+        # prior (the statement's uniform clause is about symmetric priors, where both coincide)
+        pv = np.asarray(clf.class_prior, dtype=float)
+        expected = pv / pv.sum()
+    if scen == "no_labels" and "Ensemble" not in name and not np.allclose(P, expected, atol=1e-12):
         return "not_uniform_without_labels", f"declared classes, no labels, predict_proba = {P[0].tolist()}"
     # decisions: members of classes_ minimising the expected cost under the configured cost matrix
     C = (1 - np.eye(K)) if cost is None else np.asarray(cost, dtype=float)
